@@ -313,6 +313,10 @@ def rand_keys(rng, maxorder, need0=True):
 
 
 def gen_shape(tier, rng):
+  # the registered finding C06-zero-filter-gain-unread: ZFilter({}, {0: Stream([11/2, 6])}) on 4 input items
+  S = Srcs(rng, 4)
+  S.list.append({"vals": src_vals(1, 2), "cyc": False})
+  yield mk_case(["base", [], [[0, ["s", 1]]]], S, rng, ["finding-witness"])
   # (1) every subset of coefficients replaced by streams, orders <= 2 (thorough: all; quick: a sample)
   for nb in range(0, 3):
     for na in range(0, 3):
@@ -465,8 +469,28 @@ trusted_base = [
 ASSUMPTIONS = ["CPython semantics of exec / generators / itertools.tee / map as documented",
                "str.format of ExactQ ('_Q(n,d)', injected in builtins by vlib.exactq)"]
 
+def known_tv(c, o):
+  """FINDING C06-zero-filter-gain-unread: ZFilter({}, {0: Stream}) - empty numerator, a Stream gain as the only
+  denominator term: the variable-gain branch multiplies two EMPTY Polys by the gain stream, the stream is dropped,
+  the all-zero program is generated, the gain stream is never read and the output does not end with it."""
+  if o.get("stage") != "run" or not isinstance(o.get("prog"), dict) or "zero" not in o["prog"]:
+    return None
+  if count_streams(c["expr"]) == 0:
+    return None
+  # the signature, read off the filter the implementation builds: no numerator term, a Stream gain alone
+  import audiolazy
+  try:
+    flt = _build(c["expr"], {"stream": lambda i: audiolazy.Stream(iter(()))})
+    num, den = flt.numpoly._data, flt.denpoly._data
+    if len(num) == 0 and list(den.keys()) == [0] and isinstance(den[0], audiolazy.Stream):
+      return "C06-zero-filter-gain-unread"
+  except Exception:
+    pass
+  return None
+
+
 IMPORTS = "From AL Require Import C04.Model C06.Model C06.Spec C06.Check."
 FAMILIES = {
-  "shape": Family("shape", IMPORTS, "tcase", "corr_tv", "holds_tv", gen_shape, run_tv, lit_tv, nontrivial_shape),
-  "alg": Family("alg", IMPORTS, "tcase", "corr_tv", "holds_tv", gen_alg, run_tv, lit_tv, nontrivial_alg),
+  "shape": Family("shape", IMPORTS, "tcase", "corr_tv", "holds_tv", gen_shape, run_tv, lit_tv, nontrivial_shape, known_tv),
+  "alg": Family("alg", IMPORTS, "tcase", "corr_tv", "holds_tv", gen_alg, run_tv, lit_tv, nontrivial_alg, known_tv),
 }
